@@ -13,7 +13,7 @@
 //   @free <n> <term>          n groups run the program concurrently with no gates at all (real scheduling, all cores);
 //                             only the schedule-independent predicates are evaluated
 //
-//   term ::= (obs) | (set k n) | (get k) | (push n) | (deftype a) | (load a) | (panic)
+//   term ::= (obs) | (set k n) | (get k) | (del k) | (push n) | (pop) | (deftype a) | (load a) | (panic)
 //          | (doctx id term…) | (doparent id term…) | (do id term…) | (try id term…) | (doloader term…) | (fork term…) | (go term…) | (seq term…) | (recover term…)
 //
 // Output (see lean/Driver/C14.lean): `g0:N ev … | g1:P ev … ; cur=- live=0`.
@@ -22,7 +22,10 @@
 // parent-invisible-to-child, fork-copy-late, tls-leak, crash (+ wrong-var / wrong-stack / wrong-load for a disagreement
 // with the reference semantics that fits none of the named classes).  They are evaluated against a *shadow*: every real
 // context has a shadow holding what its variables, stack and loader chain must be under the property (copied in the
-// parent at the Fork call, private afterwards); every stored value carries who stored it and when.
+// parent at the Fork call, private afterwards); every stored value carries who stored it and when.  A context's printable
+// identity (its tag) lives in the harness' registry (context object → shadow), NOT in the context: a tag variable would keep
+// every variable map non-empty and hide the states "never allocated" and "allocated, emptied by Delete".  After everything
+// has ended every context ever bound is audited once more against its shadow (`final audit`).
 package c14
 
 import (
@@ -65,7 +68,7 @@ type node struct {
 	kids []*node
 }
 
-var leafOps = map[string]bool{"obs": true, "panic": true, "set": true, "get": true, "push": true, "deftype": true, "load": true}
+var leafOps = map[string]bool{"obs": true, "panic": true, "set": true, "get": true, "del": true, "push": true, "pop": true, "deftype": true, "load": true}
 
 func okAtom(s string) bool {
 	if len(s) == 0 || len(s) > 8 {
@@ -105,7 +108,7 @@ func parse(s sx.Sexp) (*node, bool) {
 		return r, true
 	}
 	switch tag {
-	case "obs", "panic":
+	case "obs", "panic", "pop":
 		return &node{op: tag}, len(a) == 0
 	case "set":
 		if len(a) != 2 || a[0].IsList || !okAtom(a[0].Atom) {
@@ -113,7 +116,7 @@ func parse(s sx.Sexp) (*node, bool) {
 		}
 		n, ok := natOf(a[1])
 		return &node{op: tag, k: a[0].Atom, n: n}, ok
-	case "get", "deftype", "load":
+	case "get", "del", "deftype", "load":
 		if len(a) != 1 || a[0].IsList || !okAtom(a[0].Atom) {
 			return nil, false
 		}
@@ -143,11 +146,11 @@ func parse(s sx.Sexp) (*node, bool) {
 
 func (n *node) sexp() sx.Sexp {
 	switch n.op {
-	case "obs", "panic":
+	case "obs", "panic", "pop":
 		return sx.T(n.op)
 	case "set":
 		return sx.T(n.op, sx.A(n.k), sx.Int(int64(n.n)))
-	case "get", "deftype", "load":
+	case "get", "del", "deftype", "load":
 		return sx.T(n.op, sx.A(n.k))
 	case "push":
 		return sx.T(n.op, sx.Int(int64(n.n)))
@@ -205,6 +208,7 @@ type sctx struct {
 	vars   map[string]cell
 	stack  []cell // val = line
 	loader *sloader
+	tag    int // printable identity (-1 = none yet)
 }
 
 type task struct {
@@ -280,7 +284,7 @@ func (r *runner) setOutcome(g *ginfo, o string) {
 func (r *runner) newShadow(parent *sctx, g *ginfo) *sctx {
 	r.mu.Lock()
 	r.nextSer++
-	s := &sctx{serial: r.nextSer, parent: parent, g: g, forkAt: r.tick(), vars: map[string]cell{}}
+	s := &sctx{serial: r.nextSer, parent: parent, g: g, forkAt: r.tick(), vars: map[string]cell{}, tag: -1}
 	r.bySer[s.serial] = s
 	r.mu.Unlock()
 	if parent != nil {
@@ -421,11 +425,31 @@ func (r *runner) audit(s *sctx, where string) {
 	for _, k := range r.keys {
 		r.checkVar(s, k, where)
 	}
-	r.checkVar(s, tagKey, where)
 	r.checkStack(s, where)
 }
 
-const tagKey = "tag"
+// finalAudit: every goroutine has ended; every context object that was ever bound must still agree with its shadow
+func (r *runner) finalAudit() {
+	sers := make([]int, 0, len(r.bySer))
+	for k := range r.bySer {
+		sers = append(sers, k)
+	}
+	sort.Ints(sers)
+	for _, k := range sers {
+		r.audit(r.bySer[k], "final audit")
+	}
+}
+
+// tagOf is the printable identity of a context object: its number in the registry, "?" when it has none
+func (r *runner) tagOf(c px.Context) string {
+	r.mu.Lock()
+	s := r.byReal[c]
+	r.mu.Unlock()
+	if s == nil || s.tag < 0 {
+		return "?"
+	}
+	return strconv.Itoa(s.tag)
+}
 
 func current() (c px.Context, ok bool) {
 	defer func() {
@@ -514,9 +538,9 @@ func (r *runner) ctxName(v interface{}) string {
 }
 
 func (r *runner) setTag(s *sctx, id int) {
-	c := cell{val: id, by: s.serial, at: r.tick()}
-	s.real.Set(tagKey, c)
-	s.vars[tagKey] = c
+	r.mu.Lock()
+	s.tag = id
+	r.mu.Unlock()
 }
 
 func (r *runner) run(n *node, g *ginfo, s *sctx) {
@@ -544,15 +568,9 @@ func (r *runner) run(n *node, g *ginfo, s *sctx) {
 				r.fail("wrong-current", "goroutine g%d observes %s inside the body of context %d", g.gid, r.ctxName(cur), s.serial)
 			}
 		} else {
-			r.checkVar(s, tagKey, "obs")
 			r.checkStack(s, "obs")
 		}
-		tag := "?"
-		if v, ok := cur.Get(tagKey); ok {
-			if cl, ok := v.(cell); ok {
-				tag = strconv.Itoa(cl.val)
-			}
-		}
+		tag := r.tagOf(cur)
 		st := cur.Stack()
 		ls := make([]string, len(st))
 		for i, l := range st {
@@ -569,6 +587,27 @@ func (r *runner) run(n *node, g *ginfo, s *sctx) {
 			r.emit(g, "g"+n.k+"="+strconv.Itoa(act.val))
 		} else {
 			r.emit(g, "g"+n.k+"=-")
+		}
+	case "del":
+		c.Delete(n.k)
+		delete(s.vars, n.k)
+	case "pop":
+		// StackPop on an empty stack slices out of range: the runtime panic is turned into the program's panic value
+		func() {
+			defer func() {
+				if e := recover(); e != nil {
+					if len(s.stack) != 0 {
+						r.fail("wrong-stack", "StackPop panicked on context %d whose stack must hold %d frame(s)", s.serial, len(s.stack))
+					}
+					panic(errBoom)
+				}
+			}()
+			c.StackPop()
+		}()
+		if len(s.stack) == 0 {
+			r.fail("wrong-stack", "StackPop did not panic on context %d whose stack must be empty", s.serial)
+		} else {
+			s.stack = s.stack[:len(s.stack)-1]
 		}
 	case "push":
 		at := r.tick()
@@ -807,7 +846,7 @@ func newRunner(gated bool, sched []int, n *node) *runner {
 	r := &runner{gated: gated, sched: sched, nextGid: 1, logs: map[int]*glog{}, byReal: map[px.Context]*sctx{}, bySer: map[int]*sctx{}}
 	ks := map[string]bool{}
 	n.walk(func(x *node) {
-		if x.op == "set" || x.op == "get" {
+		if x.op == "set" || x.op == "get" || x.op == "del" {
 			ks[x.k] = true
 		}
 	})
@@ -840,11 +879,7 @@ func (r *runner) rootBody(n *node, g0 *ginfo) (curTag string, rootLeft bool) {
 		rootLeft = true
 		curTag = "?"
 		if c, ok := v.(px.Context); ok {
-			if tv, ok := c.Get(tagKey); ok {
-				if cl, ok := tv.(cell); ok {
-					curTag = strconv.Itoa(cl.val)
-				}
-			}
+			curTag = r.tagOf(c)
 		}
 		r.fail("not-restored", "after Do returned on a fresh goroutine its current context is still set (%s)", r.ctxName(v))
 	}
@@ -1022,6 +1057,7 @@ func exec(c px.Context, op string, args []sx.Sexp) core.Result {
 		r := newRunner(true, sched, n)
 		r.inter = op == "progi"
 		curTag, _ := r.root(n)
+		r.finalAudit()
 		live := waitLive(base, 100*time.Millisecond)
 		if live != 0 {
 			r.fail("tls-leak", "%d goroutine-local table(s) still allocated after Do returned on a fresh goroutine and every forked goroutine ended", live)
@@ -1060,6 +1096,7 @@ func exec(c px.Context, op string, args []sx.Sexp) core.Result {
 			go func(r *runner) {
 				defer wg.Done()
 				r.root(n)
+				r.finalAudit()
 			}(rs[i])
 		}
 		wg.Wait()
@@ -1109,7 +1146,9 @@ var exLeaves = []func() *node{
 	func() *node { return &node{op: "obs"} },
 	func() *node { return &node{op: "set", k: "a"} },
 	func() *node { return &node{op: "get", k: "a"} },
+	func() *node { return &node{op: "del", k: "a"} },
 	func() *node { return &node{op: "push"} },
+	func() *node { return &node{op: "pop"} },
 	func() *node { return &node{op: "deftype", k: "A"} },
 	func() *node { return &node{op: "load", k: "A"} },
 	func() *node { return &node{op: "panic"} },
@@ -1235,7 +1274,17 @@ type rgen struct {
 func (x *rgen) leaf() *node {
 	keys := []string{"a", "b"}
 	names := []string{"A", "B"}
-	switch x.r.Intn(12) {
+	switch x.r.Intn(15) {
+	case 12:
+		if x.last != "" && x.r.Intn(2) == 0 {
+			return &node{op: "del", k: x.last}
+		}
+		return &node{op: "del", k: core.Pick(x.r, keys)}
+	case 13:
+		return &node{op: "pop"}
+	case 14:
+		x.val++
+		return &node{op: "push", n: x.val}
 	case 0, 1:
 		return &node{op: "obs"}
 	case 2, 3, 4:
@@ -1293,6 +1342,99 @@ func (x *rgen) forest(size int) []*node {
 	return r
 }
 
+// ---- state shapes × scope kinds × child actions × observers ------------------------------------------------
+//
+// Every piece of per-context state is taken through its representation states before a context is derived from it:
+// variables never set / set / set and all deleted again (an allocated, EMPTY map) / several set and deleted; stack never
+// pushed / pushed / pushed and popped back to empty; loader without / with definitions / inside a loader scope.  Then a
+// derived context is made in every way pcore offers (Fork, Go, and on the same goroutine DoWithContext of a fork,
+// DoWithParent, Do, Try), its body changes each kind of state, and the parent — or a sibling derived afterwards in
+// either way — looks.  Second generation: the same from inside a forked goroutine.
+
+func leafN(op, k string) *node { return &node{op: op, k: k} }
+
+func clone(ns []*node) []*node {
+	r := make([]*node, len(ns))
+	for i, n := range ns {
+		r[i] = &node{op: n.op, k: n.k, n: n.n, kids: clone(n.kids)}
+	}
+	return r
+}
+
+func shapePreps() [][]*node {
+	set, del := func(k string) *node { return leafN("set", k) }, func(k string) *node { return leafN("del", k) }
+	push, pop := &node{op: "push"}, &node{op: "pop"}
+	return [][]*node{
+		{},
+		{set("a")},
+		{set("a"), del("a")},
+		{set("a"), set("b"), del("b"), del("a")},
+		{set("b"), del("a")},
+		{push},
+		{push, pop},
+		{push, push, pop, pop, set("a"), del("a")},
+		{leafN("deftype", "A")},
+		{leafN("load", "A")},
+	}
+}
+
+func shapeActs() [][]*node {
+	return [][]*node{
+		{leafN("set", "a")},
+		{leafN("set", "a"), leafN("del", "a")},
+		{leafN("del", "a"), leafN("set", "b")},
+		{{op: "push"}},
+		{{op: "push"}, {op: "pop"}},
+		{leafN("deftype", "A")},
+		{{op: "doloader", kids: []*node{leafN("deftype", "A"), leafN("set", "a")}}},
+		{leafN("set", "a"), {op: "push"}, leafN("deftype", "A"), leafN("get", "a")},
+	}
+}
+
+func shapeLook() []*node {
+	return []*node{leafN("get", "a"), leafN("get", "b"), {op: "obs"}, leafN("load", "A")}
+}
+
+func genShapes(g *core.G) {
+	kinds := []string{"fork", "go", "doctx", "doparent", "do", "try"}
+	emit := func(f []*node) {
+		next := 0
+		t := number(wrap(clone(f)), &next)
+		if hasSpawn(t) {
+			emitProg(g, t, eager)
+			emitInter(g, t, alternate)
+		} else {
+			emitProg(g, t)
+		}
+	}
+	scope := func(kind string, body []*node) *node { return &node{op: kind, kids: body} }
+	for _, prep := range shapePreps() {
+		for _, kind := range kinds {
+			for _, act := range shapeActs() {
+				// the parent looks
+				emit(append(append(append([]*node{}, prep...), scope(kind, act)), shapeLook()...))
+				// a sibling derived afterwards looks (goroutine and same-goroutine flavour)
+				for _, sk := range []string{"fork", "go", "doctx"} {
+					emit(append(append(append([]*node{}, prep...), scope(kind, act)), scope(sk, shapeLook())))
+				}
+			}
+		}
+	}
+	// second generation: inside a forked goroutine (and inside a nested context of it)
+	for _, outer := range []string{"fork", "go"} {
+		for _, prep := range shapePreps()[1:8] {
+			for _, kind := range []string{"fork", "go", "doctx", "doparent"} {
+				for _, act := range shapeActs()[:6] {
+					inner := append(append(append([]*node{}, prep...), scope(kind, act)), shapeLook()...)
+					emit([]*node{leafN("set", "b"), scope(outer, inner), leafN("get", "a"), leafN("get", "b")})
+					inner2 := append(append(append([]*node{}, prep...), scope(kind, act)), scope("go", shapeLook()))
+					emit([]*node{scope(outer, []*node{scope("doctx", inner2)}), {op: "obs"}})
+				}
+			}
+		}
+	}
+}
+
 func gen(g *core.G) {
 	// 1. the exhaustive small universe: every forest of at most 4 (quick) / 5 (thorough) nodes
 	max := 4
@@ -1312,6 +1454,8 @@ func gen(g *core.G) {
 			}
 		}
 	}
+	// 1b. state shapes × scope kinds × child actions × observers
+	genShapes(g)
 	// 2. random programs of size 12 (and a few larger) under random oracles
 	x := &rgen{r: g.Rng}
 	for i := 0; i < 2500*g.Scale; i++ {
